@@ -98,12 +98,30 @@ func runC03(r *Run) {
 					}
 				}
 			}
+			mediaMutated := false
+			if idx%3 == 1 && rng.P(1, 3) {
+				// a media type with characters from the edges of the grammar's ranges (the rules decide)
+				for i := range evs {
+					if evs[i].K == "md" || evs[i].K == "mb" {
+						evs[i].D2 = []byte(randAnyMediaType(rng))
+						mediaMutated = true
+					}
+				}
+				if !mediaMutated && len(evs) > 3 && evs[2].K == "l" {
+					ins := append([]Event{}, evs[:3]...)
+					ins = append(ins, Event{K: "md", D2: []byte(randAnyMediaType(rng)), D: []byte{1}})
+					evs = append(ins, evs[3:]...)
+					mediaMutated = true
+				}
+			}
 			doc, err := cbeEncode(evs, cfg)
 			if err != nil {
 				return
 			}
 			what := "encoder-output"
-			if idx%3 == 1 && len(doc) > 3 {
+			if mediaMutated {
+				what = "media-type-edge"
+			} else if idx%3 == 1 && len(doc) > 3 {
 				m := cloneBytes(doc)
 				for k := 0; k < 1+rng.Intn(2); k++ {
 					m[2+rng.Intn(len(m)-2)] = byte(rng.Intn(256))
